@@ -124,11 +124,15 @@ func c14cExec(cs c14cCase) (*fw.Violation, *harness.Client, int64) {
 		return call, id, ""
 	}
 	chunk := []byte(valOfLen(cs.Chunk))
+	// enough volume for the client to refill its 1 MiB connection window at least twice
 	var target int64 = 3 << 20
+	if cs.Chunk < 1000 {
+		target = 1200000
+	}
 	guard := 0
 	for s == nil || s.sent < target {
 		guard++
-		if guard > 400 {
+		if guard > 4000 {
 			return mk("harness-horizon", "pattern did not reach the target volume"), h, 0
 		}
 		switch cs.Class {
